@@ -1,5 +1,6 @@
-(* driver <ID> --seed S --tier quick|thorough --out FILE : writes the case file for one property *)
-let () =
+(* main_cNN.exe <ID> --seed S --tier quick|thorough --out FILE : writes the case file for one property.
+   One executable per property (generated main_cNN.ml), so that a generator that does not compile only affects its own property. *)
+let main (run : seed:int -> tier:string -> out_channel -> unit) =
   Util.check_bytes ();
   let id = ref "" and seed = ref 1 and tier = ref "quick" and out = ref "" in
   let rec args = function
@@ -10,7 +11,5 @@ let () =
     | [] -> () in
   args (List.tl (Array.to_list Sys.argv));
   let oc = if !out = "" then stdout else open_out_bin !out in
-  (match List.assoc_opt !id Props_gen.table with
-   | Some run -> run ~seed:!seed ~tier:!tier oc
-   | None -> prerr_endline ("driver: unknown property " ^ !id); exit 2);
+  run ~seed:!seed ~tier:!tier oc;
   close_out oc
